@@ -79,5 +79,12 @@ def run(c, limit=3000):
     if iref is not None:
         out["i_real"] = (int(ims.hits), int(ims.accesses))
         out["i_ref"] = (iref.hits, iref.accesses)
+    try:
+        st_d = sim.get_data_cache_stats() if dref is not None else None
+        st_i = sim.get_instruction_cache_stats() if iref is not None else None
+        out["d_reported"] = None if st_d is None else (str(st_d.get("hits")), str(st_d.get("accesses")))
+        out["i_reported"] = None if st_i is None else (str(st_i.get("hits")), str(st_i.get("accesses")))
+    except Exception as e:  # noqa
+        out["d_reported"] = out["i_reported"] = ("raises", type(e).__name__)
     out["cycles_ref"] = steps + dpen * (dref.misses if dref else 0) + ipen * (iref.misses if iref else 0)
     return out
